@@ -129,6 +129,9 @@ pub fn check_nav(rep: &mut Report, ctx: &J, src: &str, v: &Value, cm: &CodeMap, 
 			if got != exp || !items_ok || got2 != exp {
 				fail("array iter_mapped offsets differ from the items' pre-order indices", json!({"at": at, "observed": got, "expected": exp}));
 			}
+			if let Some(route) = iter_routes(&|| a.iter_mapped(cm, at).map(|m| json!(m.offset))) {
+				fail("array iter_mapped: consuming the iterator another way does not give the elements next() gives", json!({"at": at, "route": route}));
+			}
 			for (m, _) in a.iter_mapped(cm, at).zip(exp.iter()) {
 				if !span_is(src, cm, m.offset, &FragmentRef::Value(m.value)) {
 					fail("span at a mapped item offset is not the item's source text", json!({"at": at, "offset": m.offset}));
@@ -147,6 +150,9 @@ pub fn check_nav(rep: &mut Report, ctx: &J, src: &str, v: &Value, cm: &CodeMap, 
 			if got != exp {
 				fail("object iter_mapped offsets differ from the entries' pre-order indices", json!({"at": at, "observed": got, "expected": exp}));
 				continue;
+			}
+			if let Some(route) = iter_routes(&|| o.iter_mapped(cm, at).map(|m| json!([m.offset, m.value.key.offset, m.value.value.offset]))) {
+				fail("object iter_mapped: consuming the iterator another way does not give the elements next() gives", json!({"at": at, "route": route}));
 			}
 			for (m, e) in o.iter_mapped(cm, at).zip(o.iter()) {
 				let ok = std::ptr::eq(m.value.key.value, &e.key) && std::ptr::eq(m.value.value.value, &e.value)
@@ -175,6 +181,15 @@ pub fn check_nav(rep: &mut Report, ctx: &J, src: &str, v: &Value, cm: &CodeMap, 
 				let vals_ok = o.get_mapped(cm, at, k).zip(pos.iter()).all(|(m, &i)| std::ptr::eq(m.value, &o.entries()[i].value));
 				if g_e != exp_e || g_ei != exp_ei || g_v != exp_v || g_vi != exp_vi || !vals_ok {
 					fail("key-based mapped lookup offsets differ", json!({"at": at, "key": k, "entries": g_e, "expected": exp_e, "values": g_v}));
+				}
+				let routes = [
+					iter_routes(&|| o.get_mapped_entries(cm, at, k).map(|m| json!([m.offset, m.value.key.offset, m.value.value.offset]))),
+					iter_routes(&|| o.get_mapped_entries_with_index(cm, at, k).map(|(i, m)| json!([i, m.offset]))),
+					iter_routes(&|| o.get_mapped(cm, at, k).map(|m| json!(m.offset))),
+					iter_routes(&|| o.get_mapped_with_index(cm, at, k).map(|(i, m)| json!([i, m.offset]))),
+				];
+				if let Some(route) = routes.iter().flatten().next() {
+					fail("key-based mapped lookup: consuming the iterator another way does not give the elements next() gives", json!({"at": at, "key": k, "route": route}));
 				}
 				// unique variants
 				let u = |n: usize| if n == 0 { "none" } else if n == 1 { "one" } else { "dup" };
